@@ -102,6 +102,9 @@ def real_specs(chk: common.Check) -> list[dict]:
     add(statement=outlive + "raise ValueError('main thread ends first')\n", policy=pol_next, trace_threads=True, expect='raise:ValueError')
     add(statement=outlive + 'x = 1\n', policy=pol_next, trace_threads=True, expect='plain')
     add(statement=outlive + 'x = 1\n', mode='continuous', trace_threads=True, expect='plain')
+    # a second run of the same object after the first one ended the hard way (whatever the dead child left behind must not matter)
+    for kind in ('kill', 'terminate'):
+        add(statement=SCRIPTS['single'], policy=pol_next, signal={'kind': kind, 'at_prompt': 2}, expect='hard', second_run=True, second_timeout=20)
     # signals at an open prompt of the main thread (the child is quiescent there)
     ks = [1, 3] if chk.tier == 'quick' else [1, 2, 3, 4, 5]
     for kind in ('interrupt', 'terminate', 'kill'):
@@ -151,6 +154,15 @@ def check_real(spec: dict, r: dict) -> list[str]:
     msgs = []
     if rec is None or not rec.get('finished'):
         return [f"the run never finished (waiter not released within {spec['timeout']} s): {(rec or {}).get('errors')}"]
+    if spec.get('second_run'):
+        if rec.get('second_finished') is not True:
+            return [f"the second run of the same object, after the first was ended by {spec['signal']['kind']}(), never finished: {rec.get('errors')}"]
+        if rec['states'][:6] != ['initialized', 'running', 'finished', 'initialized', 'running', 'finished']:
+            return [f'state sequence over two runs {rec["states"]}']
+        ri = [(x['run_no'], x['state']) for x in rec['run_info']]
+        if [s for _, s in ri] != ['initialized', 'running', 'finished'] * 2 or len({n for n, _ in ri}) != 2:
+            return [f'run_info sequence over two runs {ri}']
+        return []
     if rec['states'][:3] != ['initialized', 'running', 'finished']:
         msgs.append(f'state sequence {rec["states"]}')
     ri = [(x['run_no'], x['state']) for x in rec['run_info']]
